@@ -46,4 +46,13 @@ def TorrentOk (isUrl : Str → Bool) (t : TorrentView) : Bool :=
   && t.trackers.all (urlOk isUrl) && decide t.trackers.Nodup
   && t.webseeds.all (urlOk isUrl) && decide t.webseeds.Nodup
 
+/-- the field values the object holds at every `str(m)` of a history: all edits so far applied,
+    renderings ignored -/
+def statesAtStr (m : MagnetObj) : List MOp → List MagnetObj
+  | [] => []
+  | .set g :: ops => statesAtStr (g m) ops
+  | .listEdit g :: ops => statesAtStr (g m) ops
+  | .plainEdit g :: ops => statesAtStr (g m) ops
+  | .str :: ops => m :: statesAtStr m ops
+
 end Torf.Magnet
